@@ -59,7 +59,7 @@ theorem ivl_remap (X Y Z e : Expr α) (lo hi : V3 α)
   | const c => rfl
   | un op a ih => simp only [remap, ivl, ih]
   | bin op a b iha ihb => simp only [remap, ivl, iha, ihb]
-  | oracle k => rfl
+  | oracle k => simp only [remap, ivl, hx, hy, hz, Bool.or_false]
   | toracle k A B C ihA ihB ihC => simp only [remap, ivl, ihA, ihB, ihC]
 
 end value
